@@ -1,6 +1,7 @@
 (* C06 — proofs about the gate (Model/AuthGate.v) and the route table (Model/Routes.v). *)
 From Coq Require Import ZArith List Bool String Lia.
 From KM Require Import Base.Bytes Model.Auth Model.AuthGate Model.Routes.
+From KM Require Model.IPExt Proofs.IPExt.
 Import ListNotations.
 Open Scope N_scope.
 
@@ -60,10 +61,21 @@ Proof.
   intros E. rewrite E in Hcn. discriminate.
 Qed.
 
+(* the netblock walk says "inside" only when a block literally present in the extension holds the peer *)
+Lemma ip_verify_inside c : ip_verify c = Some true -> x_ip_error c = false /\ peer_inside c.
+Proof.
+  unfold ip_verify, peer_inside. destruct (x_ip_error c); [discriminate|].
+  destruct (x_ext c) as [ext|]; [|discriminate]. intros V. split; [reflexivity|].
+  assert (Hv : IPExt.verify_ip ext (x_peer c) = true) by (unfold IPExt.verify_ip; now rewrite V).
+  destruct (Proofs.IPExt.verify_ip_sound _ _ Hv) as (blocks & e & b & Hin & He & Hd & Hp & Hc).
+  exists ext, blocks, e, b. repeat split; auto.
+Qed.
+
 Lemma ip_res_ok c : ip_res c = IpOk -> x_cn c <> 0 -> ip_cert c.
 Proof.
   unfold ip_res, ip_cert.
-  destruct (x_ip_error c); [discriminate|]. destruct (x_ip_valid c); simpl; [|discriminate].
+  destruct (ip_verify c) as [[|]|] eqn:V; try discriminate.
+  destruct (ip_verify_inside _ V) as [He Hi].
   destruct (x_auto_error c); [discriminate|]. destruct (x_automation c); simpl; [|discriminate].
   destruct (x_revoked c); [discriminate|]. intros _ Hcn. repeat split; auto.
 Qed.
@@ -243,15 +255,53 @@ Proof.
   destruct (never_denied _ _ _ _ _ _ _ _ _ H TL Hi HK) as (t & E & _). congruence.
 Qed.
 
+(* a statement about addresses: whoever is let in with the IP-certificate bit in the level presents a
+   certificate that carries a netblock holding the TCP peer (or the bit came out of a valid session
+   token) *)
 Corollary never_outside now lim deny required q u l iat c :
-  check_auth now lim deny required q = Admit u l iat -> q_tls q = Some c -> x_ip_valid c = false ->
-  hasb l bIPCert = true -> exists t, k_cookie (q_cred q) = Some t /\ valid_cookie now t /\ l = t_level t.
+  check_auth now lim deny required q = Admit u l iat -> q_tls q = Some c -> hasb l bIPCert = true ->
+  peer_inside c \/ exists t, k_cookie (q_cred q) = Some t /\ valid_cookie now t /\ l = t_level t.
 Proof.
-  intros H TL D HK.
+  intros H TL HK.
   destruct (identity_real _ _ _ _ _ _ _ _ H) as [[t (E & V & _ & El & _)]|[[b (_ & _ & _ & _ & _ & El & _)]|[c' (TL' & _ & _ & _ & _ & _ & Hip)]]].
-  - exists t. auto.
+  - right. exists t. auto.
   - subst l. vm_compute in HK. discriminate.
-  - rewrite TL in TL'. inversion TL'; subst c'. destruct (Hip HK) as (_ & _ & D' & _). congruence.
+  - rewrite TL in TL'. inversion TL'; subst c'. destruct (Hip HK) as (_ & _ & D' & _). left. exact D'.
+Qed.
+
+(* the contrapositive, block by block: if NO block of the extension holds the peer, the bit is not given *)
+Corollary never_outside_blocks now lim deny required q u l iat c :
+  check_auth now lim deny required q = Admit u l iat -> q_tls q = Some c -> k_cookie (q_cred q) = None ->
+  (forall ext blocks e b, x_ext c = Some ext -> In (IPExt.ipv4_family, blocks) ext -> In e blocks ->
+                          IPExt.decode e = Some b -> IPExt.contains b (x_peer c) = false) ->
+  hasb l bIPCert = false.
+Proof.
+  intros H TL NC Hout. destruct (hasb l bIPCert) eqn:HK; [|reflexivity]. exfalso.
+  destruct (never_outside _ _ _ _ _ _ _ _ _ H TL HK) as [(ext & blocks & e & b & Hx & Hf & He & Hd & _ & Hc)|(t & E & _)].
+  - rewrite (Hout _ _ _ _ Hx Hf He Hd) in Hc. discriminate.
+  - congruence.
+Qed.
+
+(* for a certificate minted for well-formed blocks (what the role-certificate endpoints produce) and an
+   IPv4 peer, in numbers: some block of the certificate and the peer agree on the leading plen bits *)
+Corollary never_outside_numeric now lim deny required q u l iat c blocks a0 a1 a2 a3 :
+  check_auth now lim deny required q = Admit u l iat -> q_tls q = Some c -> k_cookie (q_cred q) = None ->
+  x_ext c = Some (IPExt.ext_of blocks) -> forallb IPExt.wf_block blocks = true ->
+  x_peer c = IPExt.V4 a0 a1 a2 a3 -> a0 < 256 -> a1 < 256 -> a2 < 256 -> a3 < 256 ->
+  hasb l bIPCert = true ->
+  exists b, In b blocks /\
+    Proofs.IPExt.bnum b / 2 ^ (32 - IPExt.plen b) = Proofs.IPExt.num a0 a1 a2 a3 / 2 ^ (32 - IPExt.plen b).
+Proof.
+  intros H TL NC Hx Hwf Hp A0 A1 A2 A3 HK.
+  destruct (never_outside _ _ _ _ _ _ _ _ _ H TL HK) as [(ext & bl & e & b & Hx' & Hf & He & Hd & Hpl & Hc)|(t & E & _)]; [|congruence].
+  rewrite Hx in Hx'. inversion Hx'; subst ext. unfold IPExt.ext_of in Hf. destruct Hf as [Hf|[]].
+  inversion Hf; subst bl. apply in_map_iff in He. destruct He as (b0 & Hb0 & Hin).
+  assert (W : IPExt.wf_block b0 = true) by (exact (proj1 (forallb_forall _ _) Hwf b0 Hin)).
+  subst e. rewrite (Proofs.IPExt.roundtrip _ W) in Hd. inversion Hd; subst b0.
+  exists b. split; [exact Hin|]. rewrite Hp in Hc.
+  unfold IPExt.wf_block in W. repeat (apply andb_true_iff in W; destruct W as [W ?]).
+  unfold IPExt.is_byte in *.
+  apply Proofs.IPExt.contains_numeric; auto; try (now apply N.ltb_lt).
 Qed.
 
 (* ------------------------------------------------------------------ credential combinations *)
@@ -273,6 +323,46 @@ Proof.
     destruct (km_user true deny c); destruct (hasb required bIPCert); try destruct (ip_res c);
       try (vm_compute; reflexivity);
       (change (N.lor 0 0) with 0 in Hreq; rewrite hasb_zero_l in Hreq; discriminate).
+Qed.
+
+(* ------------------------------------------------------------------ the time window of a session cookie *)
+
+(* exact on both sides, to the time unit: a request that carries an auth_cookie is let in on the
+   strength of it only while nbf <= now <= exp (otherwise whoever is let in is the certificate's holder) *)
+Theorem cookie_window now lim deny required q u l iat t :
+  check_auth now lim deny required q = Admit u l iat -> k_cookie (q_cred q) = Some t ->
+  ((t_nbf t <= now <= t_exp t)%Z /\ u = t_sub t /\ l = t_level t) \/
+  (exists c, q_tls q = Some c /\ u = x_cn c /\ hasb l (N.lor bKMX509 bIPCert) = true).
+Proof.
+  intros H E.
+  destruct (basic_only_without_cookie _ _ _ _ _ _ _ _ H (or_introl (ex_intro _ t E))) as [(t' & E' & V & Eu & El)|Hc].
+  - left. rewrite E in E'. inversion E'; subst t'. destruct V as (_ & _ & _ & _ & _ & _ & W). auto.
+  - right. exact Hc.
+Qed.
+
+(* an expired or not yet valid cookie - by however little - on a connection without client certificate: refused *)
+Corollary cookie_outside_window_refused now lim deny required q t :
+  q_tls q = None -> k_cookie (q_cred q) = Some t -> (t_exp t < now \/ now < t_nbf t)%Z ->
+  exists code, check_auth now lim deny required q = Refuse code.
+Proof.
+  intros TL E W. destruct (check_auth now lim deny required q) as [u l iat|code] eqn:H; [|eauto]. exfalso.
+  destruct (cookie_window _ _ _ _ _ _ _ _ _ H E) as [((W1 & W2) & _)|(c & TL' & _)]; [lia|congruence].
+Qed.
+
+(* any grace period, however short, lets in a cookie that is not valid *)
+Lemma grace_refuted grace : (0 < grace)%Z ->
+  exists now required t, cookie_admits_with_grace grace now required t = true /\ ~ valid_cookie now t.
+Proof.
+  intros G.
+  exists 1001%Z, bU2F,
+    {| t_signer_trusted := true; t_alg_allowed := true; t_tampered := false; t_iss_ok := true; t_aud_ok := true;
+       t_kind := 0; t_nbf := 0%Z; t_exp := 1000%Z; t_iat := 0%Z; t_sub := 1; t_level := bU2F |}.
+  split.
+  - assert (E : (1000 + grace <? 1001)%Z = false) by (apply Z.ltb_ge; lia).
+    unfold cookie_admits_with_grace, token_ok.
+    cbv beta iota delta [t_signer_trusted t_alg_allowed t_tampered t_iss_ok t_aud_ok t_kind t_nbf t_exp t_level].
+    rewrite E. vm_compute. reflexivity.
+  - intros (_ & _ & _ & _ & _ & _ & W). cbn in W. lia.
 Qed.
 
 Lemma webui_level_bits l : forall acc b,
@@ -328,11 +418,12 @@ Definition main_chain := {| ch_len2 := true; ch_role_ca := false; ch_key_trusted
 (* an automation certificate for 10.0.0.0/8 presented from 192.168.1.1 with its real chain *)
 Definition outside_cert : tlsx :=
   {| x_chains := [role_chain]; x_cn := 4; x_key := 1; x_nb := 0%Z; x_ip_error := false;
-     x_ip_valid := false; x_auto_error := false; x_automation := true; x_revoked := false |}.
+     x_ext := Some (IPExt.ext_of [IPExt.mk 10 0 0 0 8]); x_peer := IPExt.V4 192 168 1 1;
+     x_auto_error := false; x_automation := true; x_revoked := false |}.
 (* an ordinary user certificate issued by the main CA *)
 Definition user_cert : tlsx :=
   {| x_chains := [main_chain]; x_cn := 1; x_key := 1; x_nb := 0%Z; x_ip_error := false;
-     x_ip_valid := false; x_auto_error := false; x_automation := false; x_revoked := false |}.
+     x_ext := None; x_peer := IPExt.V4 10 1 2 3; x_auto_error := false; x_automation := false; x_revoked := false |}.
 Definition with_cert (m : meth) (c : tlsx) : reqx :=
   {| q_meth := m; q_origin := NoOrigin; q_tls := Some c; q_cred := no_cred |}.
 
